@@ -146,11 +146,47 @@ func c17UpstreamCerts(c *Ctx) {
 			c.Violation("proxy-died", "the proxy died in the certificate matrix: "+res.Panic, map[string]any{"panic": res.Panic})
 		}
 	}()
-	reps := c.N(1, 4)
-	parallelFor(len(cells)*reps, 12, nil, func(i int) {
-		cl := cells[i%len(cells)]
-		rep := i / len(cells)
-		name := fmt.Sprintf("ok-cert%dr%d.%s.test.", i, rep, cl.tag)
+	// Several passes, one after the other: in a later pass the cells that failed dial again, now
+	// after other upstreams (same server name, different trust settings) have completed handshakes
+	// with the same server, so state shared between upstreams (a TLS session cache, a connection
+	// pool keyed too coarsely) has its chance to let an untrusted certificate through.
+	reps := c.N(2, 4)
+	all := make([]c17CertCell, len(cells))
+	for i, cl := range cells {
+		all[i] = c17CertCell{cl.tag, cl.scheme, cl.cert, cl.option, cl.srv, cl.port, cl.want}
+	}
+	// Directed sequences first, strictly one query at a time: on each server the upstreams that
+	// differ only in their trust settings take turns (ca, system-roots, skip-verify, system-roots,
+	// ca), so every failing upstream dials directly after a differently configured one completed
+	// a handshake with the very same server.
+	seq := 0
+	for base := 0; base+2 < len(all); base += 3 {
+		for _, k := range []int{0, 1, 2, 1, 0} {
+			c17CertQuery(c, all[base+k], 100000+seq, "sequence", listen)
+			seq++
+		}
+	}
+	for rep := 0; rep < reps; rep++ {
+		parallelFor(len(all), 12, nil, func(k int) {
+			c17CertQuery(c, all[k], rep*len(all)+k, fmt.Sprintf("pass%d", rep), listen)
+		})
+	}
+	c.Ev.Set("certificate_matrix_cells", len(cells))
+	c.Ev.Set("certificate_matrix_passes", reps)
+	c.Ev.Set("certificate_sequence_queries", seq)
+	c.Ev.Sample(map[string]any{"part": "certs", "cell": "quic/expired/ca", "expected": "SERVFAIL", "cells": len(cells)})
+}
+
+type c17CertCell struct {
+	tag, scheme, cert, option string
+	srv                       *fakeup.Server
+	port                      string
+	want                      bool
+}
+
+func c17CertQuery(c *Ctx, cl c17CertCell, i int, rep string, listen string) {
+	{
+		name := fmt.Sprintf("ok-cert%d%s.%s.test.", i, rep, cl.tag)
 		sc, err := dnsclient.DialStream("", listen, nil)
 		if err != nil {
 			c.Inconclusive("dial proxy: " + err.Error())
@@ -160,7 +196,7 @@ func c17UpstreamCerts(c *Ctx) {
 		sc.SendFrame(mkQuery(uint16(i), name, dns.TypeA, dns.ClassINET, false))
 		c.Ev.Eval(1)
 		cs := map[string]any{"scheme": cl.scheme, "server_certificate": cl.cert, "tls_option": cl.option, "expected_success": cl.want}
-		cellName := cl.scheme + "/" + cl.cert + "/" + cl.option
+		cellName := cl.scheme + "/" + cl.cert + "/" + cl.option + " (" + rep + ")"
 		if !sc.WaitFrames(1, 10*time.Second) {
 			c.Inconclusive("no response for cell " + cellName)
 			return
@@ -197,12 +233,10 @@ func c17UpstreamCerts(c *Ctx) {
 					}
 				}
 			}
-			c.Ev.Distinct("certs", cl.scheme, cl.cert, cl.option)
+			c.Ev.Distinct("certs", cl.scheme, cl.cert, cl.option, rep)
 			c.Ev.Count(fmt.Sprintf("certs_success=%v", got), 1)
 		}
-	})
-	c.Ev.Set("certificate_matrix_cells", len(cells))
-	c.Ev.Sample(map[string]any{"part": "certs", "cell": "quic/expired/ca", "expected": "SERVFAIL", "cells": len(cells)})
+	}
 }
 
 func c17ClientCerts(c *Ctx) {
